@@ -316,6 +316,12 @@ def run(case, j):
             # the request is corrected and the chain goes on with the same object
             est.n_to_select = int(est.n_selected_) - 1
             vforms.rejected(j, "shrinking warm start", sel.fit, est, X, y, spec, warm=True)
+            if spec["cls"] == "VoronoiFPS":
+                # ... and a cold refit refused for an illegal switching point: the fit made before it stands
+                ff_ = est.full_fraction
+                est.full_fraction = (2.0, -0.5, "half")[li % 3]
+                vforms.rejected(j, "cold refit with an illegal switching point", sel.fit, est, X, y, spec)
+                est.full_fraction = ff_
         if li > 0 and case.get("carry") and case["carry"][li] != "same":
             est = j.lib("carry", vforms.carry, est, case["carry"][li], j)  # the chain continues on a copy of the object
         est.n_to_select = vforms.numpy_scalars({"n": link["n"]})["n"] if spec.get("npscalars") else link["n"]
